@@ -144,22 +144,26 @@ def numFrac (start : Cur) (rest0 : Bytes) (n : Nat) (r : Bytes) : Step :=
     else numExp start rest0 (n + 1 + ds.length) t' true
   | _ => numExp start rest0 n r false
 
-/-- `readNumber`; `rest0` starts at the first character of the number, `start` is the cursor there -/
-def readNumber (start : Cur) (rest0 : Bytes) : Step :=
-  let (n1, r1) := match rest0 with
-    | 45 :: t => (1, t)
-    | _ => (0, rest0)
+/-- `acceptByte('-')`: bytes consumed and the rest -/
+def stripSign : Bytes → Nat × Bytes
+  | 45 :: t => (1, t)
+  | r => (0, r)
+
+/-- the part of `readNumber` after the optional sign (`n1` bytes consumed, `r1` remaining) -/
+def readNumberCore (start : Cur) (rest0 : Bytes) (n1 : Nat) (r1 : Bytes) : Step :=
   match r1 with
   | 48 :: t =>
-    let (ds, _) := digitSpan t
-    if !ds.isEmpty then
+    if !(digitSpan t).1.isEmpty then
       mkErr (start.adv (n1 + 1) (n1 + 1))
         (str "Invalid number, unexpected digit after 0: " ++ describeNext t ++ [46])
     else numFrac start rest0 (n1 + 1) t
   | _ =>
-    let (ds, t) := digitSpan r1
-    if ds.isEmpty then mkErr (start.adv n1 n1) (msgExpectedDigit r1)
-    else numFrac start rest0 (n1 + ds.length) t
+    if (digitSpan r1).1.isEmpty then mkErr (start.adv n1 n1) (msgExpectedDigit r1)
+    else numFrac start rest0 (n1 + (digitSpan r1).1.length) (digitSpan r1).2
+
+/-- `readNumber`; `rest0` starts at the first character of the number, `start` is the cursor there -/
+def readNumber (start : Cur) (rest0 : Bytes) : Step :=
+  readNumberCore start rest0 (stripSign rest0).1 (stripSign rest0).2
 
 def hexValue (b : Nat) : Option Nat :=
   if 48 ≤ b ∧ b ≤ 57 then some (b - 48)
@@ -248,12 +252,13 @@ def readBlockLoop (q : Cur) : Bytes → Cur → Bytes → Step
 termination_by l => l.length
 decreasing_by all_goals (simp [List.length_drop]; try omega)
 
-def punct (b : Nat) : Option Kind :=
-  if b = 33 then some .bang else if b = 36 then some .dollar else if b = 38 then some .amp
-  else if b = 40 then some .parenL else if b = 41 then some .parenR else if b = 58 then some .colon
-  else if b = 61 then some .equals else if b = 64 then some .at else if b = 91 then some .bracketL
-  else if b = 93 then some .bracketR else if b = 123 then some .braceL else if b = 125 then some .braceR
-  else if b = 124 then some .pipe else none
+/-- the single-byte punctuators of `ReadToken`'s switch (regenerated from source as
+    `Gen.punctTable` and compared by `gen_punctuators_agree`) -/
+def punctTable : List (Nat × Kind) :=
+  [(33, .bang), (36, .dollar), (38, .amp), (40, .parenL), (41, .parenR), (58, .colon), (61, .equals),
+   (64, .at), (91, .bracketL), (93, .bracketR), (123, .braceL), (125, .braceR), (124, .pipe)]
+
+def punct (b : Nat) : Option Kind := punctTable.lookup b
 
 /-- the three error messages at the end of `ReadToken` -/
 def unexpectedChar (c : Cur) (b : Nat) : Step :=
@@ -267,9 +272,8 @@ def simpleTok (k : Kind) (value : Bytes) (c : Cur) (nb nr : Nat) (rest : Bytes) 
   .tok { kind := k, value := value, start := c.endR, stop := c.endR + nr, line := c.line,
          col := colOf c.endR c.ls } rest (c.adv nb nr)
 
-/-- `ReadToken` -/
-def readToken (rest : Bytes) (c : Cur) : Step :=
-  let (rest, c) := ws rest c
+/-- `ReadToken` after `ws`: dispatch on the first byte -/
+def readTokenBody (rest : Bytes) (c : Cur) : Step :=
   match rest with
   | [] => simpleTok .eof [] c 0 0 []
   | b :: tl =>
@@ -281,11 +285,11 @@ def readToken (rest : Bytes) (c : Cur) : Step :=
         | 46 :: 46 :: tl' => simpleTok .spread [] c 3 3 tl'
         | _ => unexpectedChar c b
       else if b = 35 then
-        let (nb, nr, rest') := commentSpan tl
-        simpleTok .comment ((b :: tl).take (nb + 1)) c (nb + 1) (nr + 1) rest'
+        simpleTok .comment ((b :: tl).take ((commentSpan tl).1 + 1)) c ((commentSpan tl).1 + 1)
+          ((commentSpan tl).2.1 + 1) (commentSpan tl).2.2
       else if isNameStart b then
-        let (n, rest') := nameSpan tl
-        simpleTok .name (b :: n) c (n.length + 1) (n.length + 1) rest'
+        simpleTok .name (b :: (nameSpan tl).1) c ((nameSpan tl).1.length + 1) ((nameSpan tl).1.length + 1)
+          (nameSpan tl).2
       else if b = 45 ∨ isDigit b then readNumber c (b :: tl)
       else if b = 34 then
         match tl with
@@ -293,11 +297,20 @@ def readToken (rest : Bytes) (c : Cur) : Step :=
         | _ => readStringLoop c tl (c.adv 1 1) [] false
       else unexpectedChar c b
 
+/-- `ReadToken` -/
+def readToken (rest : Bytes) (c : Cur) : Step :=
+  readTokenBody (ws rest c).1 (ws rest c).2
+
 inductive LexOut
   | done (toks : List Token)                       -- ends with the EOF token
   | fail (toks : List Token) (e : LexErr)          -- tokens before the error
   | outOfFuel (toks : List Token)
   deriving Repr, Inhabited
+
+def LexOut.tokens : LexOut → List Token
+  | .done ts => ts
+  | .fail ts _ => ts
+  | .outOfFuel ts => ts
 
 def lexFuel : Nat → Bytes → Cur → List Token → LexOut
   | 0, _, _, acc => .outOfFuel acc.reverse
